@@ -389,7 +389,12 @@ func runC02(c *core.Case) {
 		}
 	}
 	prev, oldImg = mon.PosOf(n, "db"), d.M
-	res = conn.SwitchToRollback(mode)
+	if (c.Index/4)%2 == 0 {
+		res = conn.SwitchToRollbackExclusive(mode)
+		c.Count("mode_roundtrip_exclusive_from_shared", 1)
+	} else {
+		res = conn.SwitchToRollback(mode)
+	}
 	if !judge(fmt.Sprintf("epilogue: wal->%s over the journal file the mode left behind (page 1 rewritten through the journal)", mode), prev, oldImg, res) {
 		return
 	}
